@@ -5,7 +5,7 @@ import session
 import codec as C
 import points
 from oracle import bls as O
-from c07 import sampler_replay, make_stream, boundary_stream
+from c07 import sampler_replay, make_stream, boundary_stream, digit_edge_stream
 
 Q, R = O.Q, O.R
 M381 = (1 << 381) - 1
@@ -223,6 +223,25 @@ def worker(sh):
         for delta in (0, -1, 1):
             add('rc.pox.random %s' % boundary_stream(rng, delta).hex(), 'prand', boundary_stream(rng, delta))
             lines[-1] = 'rc.pox.random %s' % meta[-1][1].hex()
+    if sh.index < 8:
+        XA = O.XA
+        for pos in range(4):
+            for first in (XA, XA - 1, XA + 1):
+                if pos == 3 and first == XA - 1:
+                    continue
+                es = digit_edge_stream(rng, pos, first)
+                add('rc.pox.random %s' % es.hex(), 'prand', es)
+        # a field / scalar draw exactly on the rejection boundary: modulus (must be redrawn), modulus - 1 (largest admissible), modulus + 1
+        for d in (0, -1, 1):
+            tail48 = (rng.randrange(Q) | (rng.getrandbits(3) << 381)).to_bytes(48, 'little')
+            s = ((Q + d) | (rng.getrandbits(3) << 381)).to_bytes(48, 'little') + tail48
+            add('Fq.random %s' % s.hex(), 'fqrand', s)
+            s2 = (rng.randrange(Q)).to_bytes(48, 'little') + ((Q + d)).to_bytes(48, 'little') + tail48
+            add('Fq2.random %s' % s2.hex(), 'fq2rand', s2)
+            for topbit in (0, 1):
+                rs = ((R + d) | (topbit << 255)).to_bytes(32, 'little') + (rng.randrange(1, R)).to_bytes(32, 'little') + (rng.randrange(1, R)).to_bytes(32, 'little')
+                add('c.zp_random %s' % rs.hex(), 'zprand', rs)
+                add('c.random_zpstar %s' % rs.hex(), 'zprand', rs)
     for k in range(0, sh.pick(4, 40)):
         nrej = k % 7
         v = rng.randrange(Q)
